@@ -173,29 +173,55 @@ def check(ctx):
     # a unit of the counter stands for one cancel() made on *this scope's host task* (see the increment rule above): it may only be
     # settled by uncancel() on that task, hence handed over only to a parent scope hosted by the same task (the parent of a child
     # task's outermost scope is the task group's scope, which belongs to the parent task)
-    for st_, _ in ctx.sites(exit_, "self._parent_scope._pending_uncancellations += self._pending_uncancellations"):
-        ctx.require_at("R05-b", exit_, st_, [[SAMEHOST]], instance="uncancel count handed over only to a parent scope hosted by the same task", what="transfer")
+    # (the amount handed over is the counter itself, or a snapshot `n = self._pending_uncancellations` taken while it still had that value)
+    snaps = sorted({u(e_["T"]) for _, e_ in ctx.sites(exit_, "$T = self._pending_uncancellations") if isinstance(e_["T"], ast.Name)})
+    tr_pats = ["self._parent_scope._pending_uncancellations += self._pending_uncancellations"] + [f"self._parent_scope._pending_uncancellations += {t_}" for t_ in snaps]
+    for pat_ in tr_pats:
+        for st_, _ in ctx.sites(exit_, pat_):
+            ctx.require_at("R05-b", exit_, st_, [[SAMEHOST]], instance="uncancel count handed over only to a parent scope hosted by the same task", what="transfer")
 
     def step_t(st, e, c):
+        snap, zeroed, done, other_host = st
         if c.is_exc:
             return st
-        if e in ("transfer", "drained"):
-            return True
-        if e == "zero" and not st and SAMEHOST_F not in c.facts_before and SAMEHOST_F not in c.facts:
-            return Bad("the uncancel counter is zeroed without having been transferred to a parent scope of the same task: the host task keeps a cancellation request count it can never shed")
-        return st
+        # (the verdict "the parent is hosted by another task" is remembered when it is known: the clean-up in `finally` forgets it)
+        other_host = other_host or SAMEHOST_F in c.facts_before or SAMEHOST_F in c.facts
+        if e == "snap":
+            return (not zeroed, zeroed, done, other_host)
+        if e == "mod":
+            return (False, zeroed, done, other_host)
+        if e == "drained":
+            return (snap, zeroed, True, other_host)
+        if e == "transfer":
+            if zeroed:
+                return Bad("the uncancel counter is handed to the parent after it was zeroed (nothing is transferred)")
+            return (snap, zeroed, True, other_host)
+        if e == "transfer_snap":
+            if not snap:
+                return Bad("the amount handed to the parent is not the value the uncancel counter had (stale or missing snapshot)")
+            return (snap, zeroed, True, other_host)
+        if e == "zero":
+            return (snap, True, done, other_host)
+        return (snap, zeroed, done, other_host)
 
     def at_exit_t(kind, st, facts):
+        snap, zeroed, done, other_host = st
         if kind == "raise:RuntimeError":
             return None
-        if (zero[0], False) not in facts:
+        if zeroed and not done and not other_host:
+            return ("the uncancel counter is zeroed without having been transferred to a parent scope of the same task: the host task keeps a "
+                    "cancellation request count it can never shed")
+        if not zeroed and (zero[0], False) not in facts:
             return f"__exit__ leaves ({kind}) with a possibly non-zero uncancel counter that was neither drained nor transferred"
         return None
 
-    ctx.paths("R05-b", exit_, [("transfer", "self._parent_scope._pending_uncancellations += self._pending_uncancellations"),
+    ctx.paths("R05-b", exit_, [("transfer", tr_pats[0]), ("transfer_snap", tr_pats[1:] or [lambda frag, node: False]),
+                               ("snap", [f"{t_} = self._pending_uncancellations" for t_ in snaps] or [lambda frag, node: False]),
+                               ("mod", ["self._pending_uncancellations -= $N", "self._pending_uncancellations += $N"]),
                                ("zero", "self._pending_uncancellations = 0"),
+                               ("tick", [lambda frag, node: True]),
                                ("drained", [lambda frag, node, ids={id(b) for b in bulk}: node.kind == "for_iter" and id(node.node) in ids])],
-              step_t, False, at_exit_t, instance="counter drained or transferred")
+              step_t, (False, False, False, False), at_exit_t, instance="counter drained or transferred")
 
     # ---- R05-c timer cleanup ----------------------------------------------------------------------------------------------
     for f in (exit_, cancel):
